@@ -34,7 +34,7 @@ func catch(f func()) (msg string) {
 	defer func() {
 		if e := recover(); e != nil {
 			if re, ok := e.(runtime.Error); ok {
-				msg = "runtime error: " + re.Error()
+				msg = re.Error()
 			} else {
 				msg = fmt.Sprint(e)
 			}
